@@ -83,7 +83,10 @@ def world():
     from werkzeug.test import create_environ
     from werkzeug.wrappers import Request
 
+    from werkzeug import wsgi
+
     W = World()
+    W.wsgi = wsgi
     W.DS, W.http, W.shttp, W.HTTPException, W.Request, W.create_environ = DS, http, shttp, HTTPException, Request, create_environ
     return W
 
@@ -358,6 +361,85 @@ def check_request(W, rec, attrs, env, hostile_vars, body=None, limits=None):
     return ok
 
 
+def requests_after_an_application_closed_its_stream(rec, W, rng):
+    """History over the requests of one process: an application finishes with the body stream it was handed - closes it,
+    uses it in a with-block, wraps it in a TextIOWrapper that is dropped (which closes what it wraps), detaches or
+    exhausts it.  Every later request - with a body, without one, chunked on a server that does not dechunk - still reads
+    its own body attributes without an unrelated exception."""
+    import gc
+
+    def environ(kind):
+        env = W.create_environ(method="POST" if kind != "get" else "GET", path="/" + kind)
+        if kind == "get":
+            env["wsgi.input"] = io.BytesIO(b"")
+            env.pop("CONTENT_LENGTH", None)
+        elif kind == "no-length":
+            env["wsgi.input"] = io.BytesIO(b'{"a": 1}')
+            env.pop("CONTENT_LENGTH", None)
+            env["CONTENT_TYPE"] = "application/json"
+        elif kind == "chunked-not-dechunked":
+            env["wsgi.input"] = io.BytesIO(b"3\r\nabc\r\n0\r\n\r\n")
+            env.pop("CONTENT_LENGTH", None)
+            env["HTTP_TRANSFER_ENCODING"] = "chunked"
+        elif kind == "terminated":
+            env["wsgi.input"] = io.BytesIO(b"a=1&b=2")
+            env.pop("CONTENT_LENGTH", None)
+            env["wsgi.input_terminated"] = True
+            env["CONTENT_TYPE"] = "application/x-www-form-urlencoded"
+        elif kind == "length-zero":
+            env["wsgi.input"] = io.BytesIO(b"")
+            env["CONTENT_LENGTH"] = "0"
+        else:  # "length"
+            env["wsgi.input"] = io.BytesIO(b"a=1&b=2")
+            env["CONTENT_LENGTH"] = "7"
+            env["CONTENT_TYPE"] = "application/x-www-form-urlencoded"
+        return env
+
+    kinds = ["get", "no-length", "chunked-not-dechunked", "terminated", "length-zero", "length"]
+    finishers = ["close", "with-block", "text-wrapper-dropped", "buffered-reader-dropped", "read-to-end", "request-close", "get_input_stream-closed"]
+    for first_kind in kinds:
+        for fin in finishers:
+            r1 = W.Request(environ(first_kind))
+            try:
+                if fin == "close":
+                    r1.stream.close()
+                elif fin == "with-block":
+                    with r1.stream as st:
+                        st.read()
+                elif fin == "text-wrapper-dropped":
+                    tw = io.TextIOWrapper(r1.stream, encoding="utf-8")
+                    tw.read()
+                    del tw
+                    gc.collect()
+                elif fin == "buffered-reader-dropped":
+                    br = io.BufferedReader(r1.stream) if isinstance(r1.stream, io.RawIOBase) else io.TextIOWrapper(r1.stream)
+                    del br
+                    gc.collect()
+                elif fin == "read-to-end":
+                    r1.stream.read()
+                elif fin == "request-close":
+                    r1.get_data()
+                    r1.close()
+                else:
+                    W.wsgi.get_input_stream(environ(first_kind)).close()
+            except Exception as e:  # noqa: BLE001 - what the first application does with its own stream is its business
+                rec.observe(f"first_application_failed:{type(e).__name__}")
+            del r1
+            gc.collect()
+            rec.observe("histories_with_a_finished_stream")
+            for later in kinds:
+                for name, call in (("stream.read()", lambda r: r.stream.read()), ("data", lambda r: r.data), ("get_data()", lambda r: r.get_data()), ("get_json(silent)", lambda r: r.get_json(silent=True)),
+                                   ("form", lambda r: dict(r.form)), ("values", lambda r: dict(r.values)), ("files", lambda r: dict(r.files)), ("stream.readline()", lambda r: r.stream.readline()),
+                                   ("get_data(cache=False)", lambda r: r.get_data(cache=False))):
+                    r2 = W.Request(environ(later))
+                    rec.case()
+                    rec.observe("body_reads_after_an_earlier_stream_was_finished")
+                    rec.nontrivial(("after-finished", first_kind, fin, later, name))
+                    out = budget.run_with_budget(lambda r2=r2, call=call: call(r2))
+                    report(rec, W, f"Request.{name}[after an earlier request's stream was finished]", out,
+                           {"history": {"earlier_request": first_kind, "its_application_did": fin}, "request": later, "attribute": name})
+
+
 def concurrent_requests(rec, W, rng, nthreads=8, per_thread=160):
     """Schedule: request parsing happens on several threads of one process.  Every thread parses its own stream of
     requests - well over a hundred distinct Host names with a trusted-host list configured, cookies, Accept and
@@ -516,6 +598,8 @@ def run(shard, rec, rng):
     rec.observe("request_attributes_enumerated", len(attrs) if shard["index"] == 0 else 0)
     if shard["index"] % 4 == 2:
         concurrent_requests(rec, W, rng)
+    if shard["index"] % 4 == 1:
+        requests_after_an_application_closed_its_stream(rec, W, rng)
     if shard["index"] % 4 == 3:
         cold_start_concurrency(rec, 6 if shard["_tier"] == "quick" else 25)
     # ---- direct parser calls
